@@ -9,7 +9,7 @@ from props.parts import store
 THEOREMS = ["C19_initial_state_ok", "C19_invariant", "C19_no_panic", "C19_no_stale_key", "C19_released_is_removed",
             "C19_no_premature_removal", "C19_kept_has_reason", "C19_kept_has_reason_quiescent", "C19_reset_slot_returned",
             "C19_idle_client_closes", "C19_streams_drop_wakes", "C19_handle_drop_wakes", "C19_handle_drop_closed_wakes",
-            "C19_one_reference_left", "C19_evict_needs_transition", "C19_nonvacuous", "C19_slot_reuse_nonvacuous"]
+            "C19_one_reference_left", "C19_evicted_record_released_except_known", "C19_known_evict_refuted", "C19_nonvacuous", "C19_slot_reuse_nonvacuous"]
 PARTIAL = [
     "proved on the model of the record life cycle (store.rs slab + id map with explicit slot reuse, ref_count, the six queue flags, the "
     "queues as FIFO lists, Inner.refs, Counts embedded) for ALL label sequences and all observed inputs: the invariant (handles, queue "
@@ -22,10 +22,14 @@ PARTIAL = [
     "(a pop / handle drop after which transition_after has not run yet): that every lock-atomic section ends without an owed record is "
     "the Quiesce guard, CHECKED on every generated trace by the lock-step, not proved; that no code path closes a stream without "
     "calling transition_after is explored by the snapshot oracle (true is_closed() of every record after every step);",
+    "known finding KF-C19-3: Prioritize::assign_connection_capacity pops a reset stream from pending_capacity and `continue`s without "
+    "transition_after; if that queue membership was the record's last reason it is never removed (replay "
+    "corpus/store/known_evicted_from_pending_capacity_leaks_record.json, re-run on every check; a first repair, bbd3023, was withdrawn "
+    "because the nested transition removed records under an outer caller). C19_evicted_record_released_except_known: when the pop IS "
+    "followed by transition_after the record is removed; C19_known_evict_refuted: without it the model rejects the section at the Quiesce "
+    "guard (Stuck 9), so the theorems about quiescent states do not cover executions of this class;",
     "repaired while building this check (regression replays corpus/store/*.json re-run on every check): reset slot leak (304fa07), lost "
-    "wake-up of the connection on the last handle drop (6b1d165), PUSH_PROMISE on a cancelled stream failing the connection (631577b), "
-    "record leak by eviction from pending_capacity without transition_after (bbd3023; C19_evict_needs_transition shows the model rejects "
-    "the unrepaired order at the Quiesce guard);",
+    "wake-up of the connection on the last handle drop (6b1d165), PUSH_PROMISE on a cancelled stream failing the connection (631577b);",
     "modelled-not-verified: the linked-list representation of store::Queue (next pointers) is abstracted to a list; the key kept in "
     "Prioritize::in_flight_data_frame is outside the model (protected in the code by clear_queue setting InFlightData::Drop); the "
     "`unstable`-only debug assertion of Drop for Store is not a property of a live connection;",
@@ -65,9 +69,10 @@ def corpus_regressions(rep, scs):
         elif name.startswith("push_promise_on_cancelled_stream"):
             if any(f["t"] == "GOAWAY" for st in tr for f in st["out"]):
                 bad = "a PUSH_PROMISE on a stream the application has just cancelled fails the whole connection"
-        elif name.startswith("evicted_from_pending_capacity"):
-            if not last_snap or last_snap["conn"]["store_slab"] != 0:
-                bad = "a reset stream evicted from pending_capacity is never removed from the store"
+        elif name.startswith("known_evicted_from_pending_capacity"):
+            _, k3 = store.snapshot_oracle(sc)
+            if not k3:
+                rep.extra["KF-C19-3"] = "the replay no longer leaks the record (repaired?): turn it into a regression"
         if bad:
             rep.violation("failing-input", {"oracle": "regression replay corpus/store/%s" % name, "violation": {"why": bad},
                                             "scenario": {"cfg": sc["cfg"], "trace": [{"op": st["op"]} for st in tr]}})
